@@ -37,6 +37,10 @@ def finite_guarded(fn, ev):
 def run(ctx, sess):
     ctx.explanation = EXPL
     ctx.not_decided = NOT_DECIDED
+    ctx.rule('C09.8', 'an all-gap piece is absent, not NaN: combining with an empty accumulator copies the other operand / resets the target (shared with C20.2)')
+    from .common import relay
+    from . import c20 as _src_c20
+    relay(ctx, sess, _src_c20.run, {'C20.2': 'C09.8'})
     P = sess.prog('default')
     exc = exceptions('C09')
     fd = FD(P)
